@@ -25,21 +25,21 @@ type Config struct {
 	CJK         string `json:"cjk,omitempty"` // "", "default", "css3", "escaped"
 	AutoID      bool   `json:"auto_heading_id,omitempty"`
 	Attribute   bool   `json:"attribute,omitempty"`
-	FootnoteOpt string `json:"footnote_opt,omitempty"`     // "", "prefix", "prefixfn", "titles", "both" (only with Footnote)
+	FootnoteOpt string `json:"footnote_opt,omitempty"` // "", "prefix", "prefixfn", "titles", "both" (only with Footnote)
 	// OptsVia "renderer": the renderer-side options of extensions (footnote ids/titles, table
 	// alignment) are not given to NewFootnote/NewTable but passed, all together, through
 	// goldmark.WithRendererOptions — the renderer hands them to the node renderers in the
 	// iteration order of a map
-	OptsVia string `json:"opts_via,omitempty"`
-	TypoSubs    bool   `json:"typographer_subs,omitempty"` // custom substitutions (only with Typographer)
+	OptsVia  string `json:"opts_via,omitempty"`
+	TypoSubs bool   `json:"typographer_subs,omitempty"` // custom substitutions (only with Typographer)
 	// TypoAll: with TypoSubs, EVERY punctuation of the typographer gets a substitution of its
 	// own (a map with eleven entries: whatever one entry does to another shows in some order of
 	// the map's iteration)
-	TypoAll bool `json:"typographer_all_subs,omitempty"`
-	LinkifyOpt  string `json:"linkify_opt,omitempty"`      // "", "protocols", "regexp" (only with GFM)
-	Unsafe      bool   `json:"unsafe,omitempty"`
-	XHTML       bool   `json:"xhtml,omitempty"`
-	HardWraps   bool   `json:"hardwraps,omitempty"`
+	TypoAll    bool   `json:"typographer_all_subs,omitempty"`
+	LinkifyOpt string `json:"linkify_opt,omitempty"` // "", "protocols", "regexp" (only with GFM)
+	Unsafe     bool   `json:"unsafe,omitempty"`
+	XHTML      bool   `json:"xhtml,omitempty"`
+	HardWraps  bool   `json:"hardwraps,omitempty"`
 	// ErrRenderer: the caller registers node renderers of its own (thematic break, fenced code
 	// block, emphasis) that, unlike the built-in ones, look at the result of their writes and
 	// return the error: Render's early-return exit path ("an early return on a node-renderer
